@@ -27,7 +27,7 @@ LEVEL = "exploration"
 RUNS = {"quick": 40000, "thorough": 1000000}
 WALL = {"quick": 240, "thorough": 1500}
 PARTITIONS = [{"name": "default", "env": {}}]
-FAULT_KINDS = ["operand_swap", "tree_shape", "empty_partial", "dtype_mix", "adaptive_union", "refusal_probe",
+FAULT_KINDS = ["accumulate_into_result", "operand_swap", "tree_shape", "empty_partial", "dtype_mix", "adaptive_union", "refusal_probe",
                "self_add", "member_filled_between_sums", "dask_task_reorder", "dask_duplicate_exec", "dask_workers>1", "dask_chunking"]
 RULE = ("one run = a seeded stream (<= 30 entries) partitioned over 1-5 partial histograms (fixed equal bins or "
         "adaptive fixed-width on a common grid; mixed dtypes; facade or fill_n) reduced by a seeded sequence of "
@@ -146,10 +146,13 @@ def generate(rng, seed, part):
             a, b = rng.choice(nodes), rng.choice(nodes)
             ops.append({"op": "iadd", "a": a, "b": b})
         elif r < 0.70:
-            k = rng.randint(1, min(5, len(nodes)))
+            k = min(rng.choice([1, 1, 2, 3, 4, 5]), len(nodes))
             items = [rng.choice(nodes) for _ in range(k)]
             kind = "coll_sum" if (ndim == 1 and mode == "fixed" and rng.random() < 0.4) else "sum"
             ops.append({"op": kind, "items": items, "out": nxt})
+            if rng.random() < 0.35:
+                # the usual continuation of a reduction: accumulate further into the sum, in place
+                ops[-1]["then_iadd"] = rng.choice(nodes)
             nodes.append(nxt)
             nxt += 1
         elif r < 0.80:
@@ -157,6 +160,8 @@ def generate(rng, seed, part):
             ops.append({"op": "commute", "a": a, "b": b})
         elif r < 0.85:
             ops.append({"op": "radd0", "a": rng.choice(nodes), "out": nxt})
+            if rng.random() < 0.5:
+                ops[-1]["then_iadd"] = rng.choice(nodes)
             nodes.append(nxt)
             nxt += 1
         else:
@@ -434,6 +439,27 @@ def execute(plan, ctx, rules=("C05",)):
         if c14 and ndim == 1:
             check_moments(ctx, cfg, entries, res, bag, opname)
 
+    def accumulate_into(res, bag, operands, extra_id, opname):
+        """`res += <another node>` right after res was produced: the operands res came from must not change."""
+        extra = nodes.get(extra_id)
+        if extra is None or not c05:
+            return bag, True
+        if (not res.is_adaptive()) and not bins_equal(res, extra.h):
+            return bag, True  # would be refused (frozen left operand): not the subject here
+        pres_ = [snap(x.h) for x in operands]
+        ok_, r_ = attempt(lambda: res.__iadd__(extra.h))
+        ctx.ev("reduce", f"{opname}+accumulate", extra_id, "ok" if ok_ else exc_tag(r_))
+        ctx.fault("accumulate_into_result")
+        for k_, (x, pre_) in enumerate(zip(operands, pres_)):
+            d_ = snap_diff(pre_, snap(x.h))
+            if d_:
+                ctx.violation("C05/operands-unchanged", f"C05/operand-modified/{kind}/{opname}-then-accumulate",
+                              f"{opname} returned a result; accumulating into that result in place (+=) changed "
+                              f"operand {k_} of the {opname}: {d_}")
+        if not ok_:
+            return bag, False
+        return bag + list(extra.bag), True
+
     n_reduce = 0
     persistent = None
     for step, op in enumerate(plan["ops"]):
@@ -553,7 +579,10 @@ def execute(plan, ctx, rules=("C05",)):
                                       f"{o} modified operand {k}: {d}")
             bag = [i for x in items for i in x.bag]
             check_result(res, bag, items, o)
-            if res is not items[0].h:  # sum([a]) returning a itself is judged by C12, not here
+            usable = True
+            if op.get("then_iadd") is not None:
+                bag, usable = accumulate_into(res, bag, items, op["then_iadd"], o)
+            if usable and res is not items[0].h:
                 nodes[op["out"]] = Node(res, bag)
         elif o == "coll_make":
             items = [nodes[i] for i in op["items"] if i in nodes]
@@ -611,6 +640,8 @@ def execute(plan, ctx, rules=("C05",)):
             if c05 and snap_diff(pre, snap(a.h)):
                 ctx.violation("C05/operands-unchanged", f"C05/operand-modified/{kind}/radd0", "0 + h modified h")
             check_result(res, a.bag, [a], "radd0")
+            if op.get("then_iadd") is not None:
+                accumulate_into(res, list(a.bag), [a], op["then_iadd"], "radd0")
         elif o == "refuse":
             a = nodes.get(op["a"])
             if a is None or not c05:
